@@ -7,7 +7,7 @@ Adv == l' = l + 1 /\ h' = h
 More == l <= Len(Events(h))
 TReq == More /\ Ev.e = "Req" /\ Req(Ev.id) /\ Adv
 TFS == More /\ Ev.e = "FetchStart" /\ FetchStart(Ev.v, Ev.id, Ev.len, Ev.status) /\ Adv
-TFH == More /\ Ev.e = "FetchHead" /\ FetchHead(Ev.v, Ev.shareable) /\ Adv
+TFH == More /\ Ev.e = "FetchHead" /\ FetchHead(Ev.v, Ev.shareable, Ev.reval) /\ Adv
 TFE == More /\ Ev.e = "FetchEnd" /\ FetchEnd(Ev.v, Ev.fin) /\ Adv
 TCR == More /\ Ev.e = "CResp" /\ CResp(Ev.hv, Ev.bv, Ev.status, Ev.blen, Ev.intact, Ev.complete) /\ Adv
 TDone == More /\ Ev.e = "Done" /\ Done /\ Adv
